@@ -31,14 +31,20 @@ import (
 type c11Ticker struct {
 	c       chan time.Time
 	stopped atomic.Bool
+	e       *c11Env
 }
 
 func (t *c11Ticker) Chan() <-chan time.Time { return t.c }
-func (t *c11Ticker) Stop()                  { t.stopped.Store(true) }
+func (t *c11Ticker) Stop() {
+	t.stopped.Store(true)
+	if t.e != nil {
+		t.e.holdAtStop()
+	}
+}
 
 type c11Gated struct {
 	batch []int
-	ch    chan bool // true = panic
+	ch    chan int // outcome of the callback: 0 = return, 1 = panic(string), 2 = panic(error value), 3 = run-time error (nil map write)
 }
 
 type c11Env struct {
@@ -57,7 +63,8 @@ type c11Env struct {
 	arm     []string        // per caller: the hold point it is armed for ("" = none)
 	holdCh  []chan struct{} // per caller: released by unhold
 	held    atomic.Int32    // callers parked at a hold point (they own pe.lock)
-	bgArm   bool            // the background flusher is armed for the hold point "fremoved"
+	bgArm   string          // the background flusher is armed for this hold point: "fremoved" (inside the RemoveAll of its tick / quit Flush) | "stop" (ticker.Stop of a quitting flusher: after the quit decision, before the deferred Flush)
+	mut     []int           // first tasks of batches whose slice showed OTHER tasks when the (gated) callback looked again at its end
 	bgCh    chan struct{}
 	bholder int             // caller that holds pe.wgBarrier for the harness (-1 = nobody)
 	bch     chan string     // releases it: the value names the call the caller goes on with, without yielding
@@ -168,7 +175,7 @@ func (e *c11Env) holdAt(point string) {
 	// not a caller: a background flusher inside the RemoveAll of its tick / quit Flush (`hold bg fremoved`)
 	if point == "fremoved" && strings.Contains(st, "backgroundFlush.func1") {
 		e.mu.Lock()
-		armed := e.bgArm
+		armed := e.bgArm == "fremoved"
 		e.mu.Unlock()
 		if armed {
 			e.held.Add(1)
@@ -178,9 +185,22 @@ func (e *c11Env) holdAt(point string) {
 	}
 }
 
+// holdAtStop is called by ticker.Stop(), i.e. by a background flusher that has decided to quit and runs its
+// deferred calls: after shallQuit, before the deferred Flush (`hold bg stop`).
+func (e *c11Env) holdAtStop() {
+	e.mu.Lock()
+	armed := e.bgArm == "stop"
+	e.mu.Unlock()
+	if armed {
+		e.held.Add(1)
+		c11HoldPark(e.bgCh)
+		e.held.Add(-1)
+	}
+}
+
 func (e *c11Env) unholdBg() {
 	e.mu.Lock()
-	e.bgArm = false
+	e.bgArm = ""
 	e.mu.Unlock()
 	select {
 	case e.bgCh <- struct{}{}:
@@ -221,28 +241,41 @@ func c11WorkerLoop(w *c11Worker, ready chan struct{}) {
 }
 
 //go:noinline
-func c11Gate(ch chan bool) bool { return <-ch }
+func c11Gate(ch chan int) int { return <-ch }
 
 func (e *c11Env) execute(tasks []any) {
 	batch := make([]int, len(tasks))
 	for i, t := range tasks {
 		batch[i] = t.(int)
 	}
-	pan := false
+	pan := 0
 	if e.gate {
-		g := &c11Gated{batch: batch, ch: make(chan bool)}
+		g := &c11Gated{batch: batch, ch: make(chan int)}
 		e.mu.Lock()
 		e.gated = append(e.gated, g)
 		e.mu.Unlock()
 		pan = c11Gate(g.ch)
+		// a slow callback looks at its batch again when it is done: the slice it was handed must still show the
+		// same tasks (nobody may write into a batch that has been handed out)
+		same := true
+		for i, t := range tasks {
+			if v, ok := t.(int); !ok || v != batch[i] {
+				same = false
+			}
+		}
+		if !same && len(batch) > 0 {
+			e.mu.Lock()
+			e.mut = append(e.mut, batch[0])
+			e.mu.Unlock()
+		}
 	} else if e.pm > 0 && len(batch) > 0 && batch[0]%e.pm == 3 {
-		pan = true
+		pan = 1 + (batch[0]/8)%3
 	}
 	e.mu.Lock()
 	e.newFin = append(e.newFin, batch...)
 	e.allFin = append(e.allFin, batch...)
 	e.mu.Unlock()
-	if pan {
+	if pan != 0 {
 		// a panic that nothing recovers kills the whole test process (and the trace with it): look before leaping
 		buf := make([]byte, 8192)
 		st := string(buf[:runtime.Stack(buf, false)])
@@ -253,6 +286,13 @@ func (e *c11Env) execute(tasks []any) {
 			}
 			e.mu.Unlock()
 			return
+		}
+		switch pan {
+		case 2:
+			panic(fmt.Errorf("c11 callback panic with an error value"))
+		case 3:
+			var m map[int]int
+			m[0] = 1 // runtime.Error
 		}
 		panic("c11 callback panic")
 	}
@@ -368,8 +408,14 @@ func (e *c11Env) classify(g c11G) string {
 			return "qlock"
 		}
 	case "sleep":
-		if in == "(*PeriodicalExecutor).Wait" && atomic.LoadInt32(&e.pe.inflight) > 0 {
-			return "spin"
+		// a poll loop on pe.inflight (Wait's): parked for as long as inflight stays > 0 (and it stays, when everybody
+		// else is parked). The same poll at a place the protocol does not have it (a changed tree) is a parking point
+		// of its own: the run is quiescent at once and the monitor reports who never returns - no watchdog timeout.
+		if strings.HasPrefix(in, "(*PeriodicalExecutor).") && atomic.LoadInt32(&e.pe.inflight) > 0 {
+			if in == "(*PeriodicalExecutor).Wait" {
+				return "spin"
+			}
+			return "spin:" + strings.ReplaceAll(in, " ", "")
 		}
 		return ""
 	}
@@ -515,6 +561,8 @@ func (e *c11Env) observe(self int64) string {
 	e.wret = nil
 	unprot := e.unprot
 	e.unprot = nil
+	mut := e.mut
+	e.mut = nil
 	e.mu.Unlock()
 	sort.Strings(cbs)
 	sort.Ints(nf)
@@ -544,10 +592,14 @@ func (e *c11Env) observe(self int64) string {
 		sort.Ints(unprot)
 		obs += " unprot=" + c11Ints(unprot, ",")
 	}
+	if len(mut) > 0 {
+		sort.Ints(mut)
+		obs += " mut=" + c11Ints(mut, ",")
+	}
 	return obs
 }
 
-func (e *c11Env) release(first int, pan bool) bool {
+func (e *c11Env) release(first int, pan int) bool {
 	e.mu.Lock()
 	defer e.mu.Unlock()
 	for i, g := range e.gated {
@@ -566,7 +618,7 @@ func (e *c11Env) releaseAll() bool {
 	e.gated = nil
 	e.mu.Unlock()
 	for _, g := range gs {
-		g.ch <- false
+		g.ch <- 0
 	}
 	return len(gs) > 0
 }
@@ -844,7 +896,7 @@ func c11Barrier(r *verifh.Rng) verifh.Section {
 	if gate == 1 {
 		for _, f := range firsts {
 			if r.Chance(2, 3) {
-				ops = append(ops, fmt.Sprintf("rel %d %s", f, r.PickS("ok", "ok", "panic")))
+				ops = append(ops, fmt.Sprintf("rel %d %s", f, r.PickS("ok", "ok", "panic", "epanic")))
 			}
 		}
 	}
@@ -881,6 +933,172 @@ func c11QuitWindow(r *verifh.Rng) verifh.Section {
 	}
 	ops = append(ops, "drain")
 	return verifh.Section{Cfg: c11Cfg(kind, max, iv, 2, 0, 0), Ops: ops}
+}
+
+// c11QuitStop generates one section of the class "Adds (up to and beyond the threshold), Flush or Wait arrive while a
+// background flusher that has DECIDED to quit has not yet run its deferred Flush": the flusher is parked in
+// ticker.Stop() (its first deferred call after shallQuit said stop). Whoever adds now must get a new flusher
+// (guarded was reset together with the quit decision), a batch handed over now must find somebody at the
+// commander, and the quitting flusher's deferred Flush must take what the window left in the container.
+func c11QuitStop(r *verifh.Rng) verifh.Section {
+	kind := r.PickS("bulk", "bulk", "chunk")
+	max := r.Pick(1, 2, 2, 3)
+	if kind == "chunk" {
+		max = r.Pick(2, 3, 5)
+	}
+	iv := r.Pick(1, 10, 1000)
+	p := r.Range(2, 3)
+	gate := r.Pick(0, 0, 1)
+	id := 1
+	t := func() int { x := c11T(id, 1); id++; return x }
+	var ops []string
+	// a flusher that has flushed once
+	x0 := t()
+	ops = append(ops, fmt.Sprintf("add 0 %d", x0))
+	if !(max == 1) {
+		ops = append(ops, "tick")
+	}
+	if gate == 1 {
+		ops = append(ops, fmt.Sprintf("rel %d ok", x0))
+	}
+	for i := r.Pick(0, 1, 2); i > 0; i-- {
+		ops = append(ops, "tick")
+	}
+	// past the idle bound: the next tick finds nothing to flush and the flusher decides to quit
+	ops = append(ops, fmt.Sprintf("t+ %d", r.Pick(10*iv+1, 10*iv+1, 11*iv+1, 20*iv+1)), "hold bg stop", "tick")
+	var firsts []int
+	// the window: adds up to (and past) the threshold, Flush / Wait of the others
+	n := r.Pick(max, max, max, max-1, max+1, 2*max, 1)
+	for i := 0; i < n; i++ {
+		x := t()
+		if i%max == 0 {
+			firsts = append(firsts, x)
+		}
+		ops = append(ops, fmt.Sprintf("add %d %d", r.Intn(p), x))
+		if r.Chance(1, 6) {
+			ops = append(ops, fmt.Sprintf("%s %d", r.PickS("flush", "wait", "flush"), r.Intn(p)))
+		}
+	}
+	if r.Chance(1, 4) {
+		ops = append(ops, "tick")
+	}
+	ops = append(ops, "unhold bg")
+	if gate == 1 {
+		for _, f := range firsts {
+			if r.Chance(2, 3) {
+				ops = append(ops, fmt.Sprintf("rel %d %s", f, r.PickS("ok", "ok", "panic", "epanic", "rpanic")))
+			}
+		}
+	}
+	for i := r.Pick(0, 0, 1, 2); i > 0; i-- {
+		switch r.Intn(3) {
+		case 0:
+			ops = append(ops, "tick")
+		case 1:
+			ops = append(ops, fmt.Sprintf("add %d %d", r.Intn(p), t()))
+		default:
+			ops = append(ops, fmt.Sprintf("wait %d", r.Intn(p)))
+		}
+	}
+	ops = append(ops, "drain")
+	return verifh.Section{Cfg: c11Cfg(kind, max, iv, p, gate, 0), Ops: ops}
+}
+
+// c11Outstanding generates one section of the class "several batches are outstanding (inside a slow callback of the
+// flusher or of a Flush caller, in the commander buffer, in a producer's hands) while RemoveAll is called again and
+// again (Flush on a non-empty / empty container, threshold hand-overs) and further Adds arrive; the callbacks end
+// later, in any order, and look at their batch again": a container that recycles a buffer it has handed out
+// (one, two or more RemoveAll calls ago) overwrites a batch somebody still owns.
+func c11Outstanding(r *verifh.Rng) verifh.Section {
+	kind := r.PickS("bulk", "bulk", "chunk")
+	max := r.Pick(2, 3, 3, 4)
+	if kind == "chunk" {
+		max = r.Pick(3, 4)
+	}
+	p := 3
+	id := 1
+	var ops []string
+	var firsts []int
+	busy := map[int]bool{} // callers parked inside a gated callback of their own Flush
+	// a caller adds `n` tasks of one byte each (a chunk container of threshold `max` is full after `max` of them)
+	below := 0
+	add := func(w int) {
+		x := c11T(id, 1)
+		id++
+		if below == 0 {
+			firsts = append(firsts, x)
+		}
+		below++
+		if below >= max {
+			below = 0
+		}
+		ops = append(ops, fmt.Sprintf("add %d %d", w, x))
+	}
+	free := func() int {
+		for k := 0; k < 8; k++ {
+			if w := r.Intn(p); !busy[w] {
+				return w
+			}
+		}
+		return 0
+	}
+	// the first batch: a full one through the commander (flusher busy in its callback) or a partial one taken by a tick
+	if r.Chance(2, 3) {
+		for i := 0; i < max; i++ {
+			add(0)
+		}
+	} else {
+		add(0)
+		ops = append(ops, "tick")
+		below = 0
+	}
+	for i := r.Range(3, 7); i > 0; i-- {
+		switch r.Intn(7) {
+		case 0, 1: // a few adds below the threshold
+			for j := r.Range(1, max-1); j > 0 && below < max-1; j-- {
+				add(free())
+			}
+		case 2: // up to the threshold: a second batch goes to the commander / stays in the producer's hands
+			for below != 0 || r.Chance(1, 3) {
+				add(free())
+				if below == 0 {
+					break
+				}
+			}
+		case 3, 4: // Flush of a free caller: RemoveAll on an empty or non-empty container
+			w := free()
+			ops = append(ops, fmt.Sprintf("flush %d", w))
+			if below > 0 && len(busy) < p-1 {
+				busy[w] = true
+			}
+			below = 0
+		case 5: // one of the outstanding callbacks ends
+			if len(firsts) > 0 {
+				k := r.Intn(len(firsts))
+				ops = append(ops, fmt.Sprintf("rel %d %s", firsts[k], r.PickS("ok", "ok", "ok", "panic", "epanic")))
+				busy = map[int]bool{} // whoever it was: the generator only avoids obviously busy callers
+			}
+		default:
+			ops = append(ops, "tick")
+		}
+	}
+	// a last few adds, then every callback ends (latest first or earliest first) and looks at its batch again
+	for j := r.Range(0, max-1); j > 0 && below < max-1; j-- {
+		add(free())
+	}
+	order := append([]int(nil), firsts...)
+	if r.Chance(1, 2) {
+		for i, j := 0, len(order)-1; i < j; i, j = i+1, j-1 {
+			order[i], order[j] = order[j], order[i]
+		}
+	}
+	for _, f := range order {
+		if r.Chance(3, 4) {
+			ops = append(ops, fmt.Sprintf("rel %d ok", f))
+		}
+	}
+	ops = append(ops, "drain")
+	return verifh.Section{Cfg: c11Cfg(kind, max, 10, p, 1, 0), Ops: ops}
 }
 
 func c11NonNeg(x int) int {
@@ -935,7 +1153,13 @@ func c11Gen(r *verifh.Rng) []verifh.Section {
 	for i := verifh.Scale(16, 300); i > 0; i-- {
 		secs = append(secs, c11QuitWindow(r))
 	}
-	nsec := verifh.Scale(70, 900)
+	for i := verifh.Scale(16, 300); i > 0; i-- {
+		secs = append(secs, c11QuitStop(r))
+	}
+	for i := verifh.Scale(16, 300); i > 0; i-- {
+		secs = append(secs, c11Outstanding(r))
+	}
+	nsec := verifh.Scale(60, 900)
 	for i := 0; i < nsec; i++ {
 		kind := r.PickS("bulk", "bulk", "chunk")
 		max := r.Pick(1, 2, 2, 3, 3, 4, 6)
@@ -1025,7 +1249,7 @@ func c11Gen(r *verifh.Rng) []verifh.Section {
 				ops = append(ops, fmt.Sprintf("hold %d %s", w, r.PickS("full", "removed", "notfull", "fremoved")))
 				armed[w] = true
 			case x < 85:
-				ops = append(ops, "hold bg fremoved")
+				ops = append(ops, "hold bg "+r.PickS("fremoved", "fremoved", "stop"))
 				armed[p] = true
 			case x < 88:
 				ops = append(ops, fmt.Sprintf("unhold %d", w))
@@ -1043,7 +1267,7 @@ func c11Gen(r *verifh.Rng) []verifh.Section {
 						// prefer a recent one
 						k = added[len(added)-1-r.Intn(min(len(added), 4))]
 					}
-					ops = append(ops, fmt.Sprintf("rel %d %s", k, r.PickS("ok", "ok", "ok", "panic")))
+					ops = append(ops, fmt.Sprintf("rel %d %s", k, r.PickS("ok", "ok", "ok", "ok", "ok", "panic", "epanic", "rpanic")))
 				} else {
 					ops = append(ops, "tick")
 				}
@@ -1096,7 +1320,7 @@ func TestVerifC11(t *testing.T) {
 		}
 		e.pe.container = &c11HookContainer{inner: e.pe.container, e: e}
 		e.pe.newTicker = func(time.Duration) timex.Ticker {
-			tk := &c11Ticker{c: make(chan time.Time)}
+			tk := &c11Ticker{c: make(chan time.Time), e: e}
 			e.mu.Lock()
 			e.tickers = append(e.tickers, tk)
 			e.mu.Unlock()
@@ -1171,15 +1395,21 @@ func TestVerifC11(t *testing.T) {
 			case "hold":
 				if op[1] == "bg" {
 					// arm the background flusher: it parks inside the RemoveAll of its next tick / quit Flush
-					if op[2] != "fremoved" {
+					if op[2] != "fremoved" && op[2] != "stop" {
 						return "bad-op"
 					}
 					if e.quiesce(self) == nil {
 						return e.stuck
 					}
 					e.mu.Lock()
-					e.bgArm = true
+					other := e.bgArm != "" && e.bgArm != op[2]
+					if !other {
+						e.bgArm = op[2]
+					}
 					e.mu.Unlock()
+					if other {
+						return "skip" // armed for (maybe parked at) the other hold point: `unhold bg` first
+					}
 					return e.observe(self)
 				}
 				// arm caller w: its next pass through the named point of the critical section parks it there
@@ -1226,7 +1456,11 @@ func TestVerifC11(t *testing.T) {
 				if e.quiesce(self) == nil {
 					return e.stuck
 				}
-				if !e.release(verifh.Atoi(op[1]), op[2] == "panic") {
+				pan, known := map[string]int{"ok": 0, "panic": 1, "epanic": 2, "rpanic": 3}[op[2]]
+				if !known {
+					return "bad-op"
+				}
+				if !e.release(verifh.Atoi(op[1]), pan) {
 					return "skip"
 				}
 				return e.observe(self)
@@ -1295,12 +1529,19 @@ func TestVerifC11(t *testing.T) {
 			if !e.dead && e.quiesce(self) != nil {
 				e.unholdBg()
 			}
+			prev := ""
 			for i := 0; i < 50; i++ {
 				e.releaseAll()
 				snap := e.quiesce(self)
 				if snap == nil || len(snap.flushers) == 0 {
 					break
 				}
+				// a flusher that cannot quit (parked for good on a changed tree): two rounds without any change are enough
+				now := strings.Join(snap.workers, ",") + "|" + strings.Join(snap.flushers, ",")
+				if i >= 3 && now == prev {
+					break
+				}
+				prev = now
 				timex.VerifAdvance(iv*idleRound*2 + 1)
 				e.tick()
 			}
